@@ -1,5 +1,6 @@
 import RsModel.Lemmas.Rope
 import RsModel.Lemmas.RopeSlice
+import RsModel.Lemmas.RopeStarts
 /-!
 # C16 — Rope behaves exactly like the string it represents
 `render r` is the flat string a rope stands for.
@@ -185,5 +186,24 @@ example : (match (RProgS.slice (.append (.from_ [97, 0xC3, 0xA9]) (.iter [[98], 
     ∧ (match (RProgS.slice (.append (.from_ [97, 0xC3, 0xA9]) (.iter [[98], [], [99, 100]])) 2 5).eval with
       | .ok _ => false | .error e => e == .boundary) = true := by
   decide
+
+
+/-! ## the remaining observers, for every rope a program can build -/
+
+/-- `ends_with`, equality with a string, equality of ropes, `starts_with` and the offsets of `char_indices` answer as the
+flat strings do, whatever the division into pieces — and none of them panics -/
+theorem c16_observers (p q : RProgS) (hp : p.TextsOK) (hq : q.TextsOK) (r v : Rope) (hr : p.eval = .ok r) (hv : q.eval = .ok v)
+    (c : UInt8) (o : Text) :
+    r.endsWith c = (r.render.getLast? == some c)
+    ∧ r.eqStr o = .ok (r.render == o)
+    ∧ r.eqRope v = .ok (r.render == v.render)
+    ∧ r.startsWith v = v.render.isPrefixOf r.render
+    ∧ (r.charIndices.map (·.1)) = charStarts r.render := by
+  have wr := (c16_program p hp).2 r hr
+  have wv := (c16_program q hq).2 v hv
+  exact ⟨endsWith_spec r c, eqStr_spec r wr.inv o, eqRope_spec r v wr.inv wv.inv, startsWith_spec r v, charIndices_offsets r wr.inv⟩
+
+/-- the shape that exposed defect F14 (argument ending with an empty piece), now answering like the flat strings -/
+example : (Rope.full [([97], 0)]).startsWith (.full [([97], 0), ([], 1)]) = true := by decide
 
 end Rs
